@@ -75,6 +75,31 @@ def outcome(res, arn):
     return (d["status"], out, d.get("error"))
 
 
+def strip_timeouts(node):
+    """Generated programs for C04 carry no explicit time-outs: a deadline that passes while the engine is down changes
+    the outcome legitimately, which would make the crash-free run the wrong reference."""
+    if isinstance(node, dict):
+        for k in ("TimeoutSeconds", "TimeoutSecondsPath", "HeartbeatSeconds"):
+            if k in node and ("Type" in node or "States" in node):
+                del node[k]
+        for v in node.values():
+            strip_timeouts(v)
+    elif isinstance(node, list):
+        for v in node:
+            strip_timeouts(v)
+
+
+def unfinished(res, mon):
+    """
+    True if the run went quiet while an execution that was announced has no terminal notification yet.  The engine's
+    last line of defence against stuck executions is periodic (check_for_expired_branch_results, once a second, fails
+    an execution whose join has outlived the execution time-out), and periodic timers do not keep a simulation from
+    being quiescent: in that case the run is continued past the time-out before "never terminal" is concluded.
+    """
+    res.info["continued-to-backstop"] = any("RUNNING" in s and mon.terminal_status(a) is None for a, s in mon.seq.items())
+    return res.info["continued-to-backstop"]
+
+
 def run_crash(scn, seed, point, downtime):
     """point = ("step", k) crash right after scheduler step k; ("op", j) crash after the j-th engine broker op."""
     state = {"n": 0, "crashed_at": None, "idle": None}
@@ -114,7 +139,8 @@ def run_crash(scn, seed, point, downtime):
             sim.broker.fault_hook = hook
     mon = NotifyMonitor("C04", check_shape=False)
     ttl = scn["config"].get("execution_ttl", 120)
-    res = run_scenario(scn, seed, monitors=[mon], before_run=before, horizon=ttl + 900)
+    res = run_scenario(scn, seed, monitors=[mon], before_run=before, horizon=ttl + 900, settle=ttl + 70,
+                       settle_if=lambda r: unfinished(r, mon))
     return res, state, mon
 
 
@@ -218,6 +244,7 @@ def run_one(item, extra):
         seed = common.run_seed(name)
         rng = random.Random(seed)
         prog = E.gen_program(rng, rng.choice(["sequential", "fanout_ok"]), extra["tier"])
+        strip_timeouts(prog["definition"])
         scn = E.scenario_of(prog, {"policy": "canonical", "latency": "zero", "execution_ttl": 300}, 1, "STANDARD")
         scn["machines"]["m"]["family"] = "generated"
         mo = E.model_for(scn)
@@ -258,6 +285,9 @@ def run_one(item, extra):
             total["probes"]["crash-point:" + p[0]] = total["probes"].get("crash-point:" + p[0], 0) + 1
             redel = sum(1 for o in res.sim.broker.oplog if o[2] == "deliver" and o[4].get("redelivered"))
             total["probes"]["redeliveries"] = total["probes"].get("redeliveries", 0) + redel
+            if res.info.get("continued-to-backstop"):
+                total["probes"]["ended-only-by-the-periodic-backstop"] = total["probes"].get(
+                    "ended-only-by-the-periodic-backstop", 0) + 1
             total["distinct"].append(common.sha([name, p, dt]))
             total["interleavings"].append(res.sim.order_hash.hexdigest()[:16])
         for f in findings:
@@ -296,6 +326,7 @@ def multi_case(i, tier):
         fam = "corpus:" + name
     else:
         prog = E.gen_program(rng, rng.choice(["sequential", "fanout_ok", "retry"]), tier)
+        strip_timeouts(prog["definition"])
         scn = E.scenario_of(prog, {"execution_ttl": 120}, 1, "STANDARD")
         scn["machines"]["m"]["family"] = fam = "generated"
         mo = E.model_for(scn)
@@ -308,7 +339,9 @@ def multi_case(i, tier):
     cfg["nodes"] = 2 if (cfg["store"] == "redis" and rng.random() < 0.4) else 1
     cfg["queue_type"] = rng.choice(["classic", "quorum"])
     scn["config"] = cfg
-    if rng.random() < 0.5:
+    # a second execution of the same machine shares the worker functions: only where every function answers the same
+    # way on every call (otherwise which execution gets which scripted outcome would depend on the schedule)
+    if rng.random() < 0.5 and all(len(v) == 1 for v in scn["script"].values()):
         ex = dict(scn["executions"][0])
         ex["name"] = "e2"
         ex["at"] = rng.choice([0.0, 0.5, 1.0, 2.5])
@@ -398,7 +431,8 @@ def run_multi_case(case, seed):
         sim.broker.publish_hooks.append(on_publish)
     mon = NotifyMonitor("C04", check_shape=False)
     ttl = scn["config"].get("execution_ttl", 120)
-    res = run_scenario(scn, seed, monitors=[mon], before_run=before, horizon=ttl + 900 + 10 * len(plan))
+    res = run_scenario(scn, seed, monitors=[mon], before_run=before, horizon=ttl + 900 + 10 * len(plan),
+                       settle=ttl + 70, settle_if=lambda r: unfinished(r, mon))
     return res, state, mon
 
 
@@ -491,6 +525,7 @@ def run_multi(item, extra):
               "multi:store=" + scn["config"]["store"]: 1, "multi:transport=" + scn["config"]["transport"]: 1,
               "multi:nodes=%d" % scn["config"]["nodes"]: 1, "multi:policy=" + scn["config"]["policy"]: 1,
               "multi:all-crashes-idle(outcome+record compared)": 1 if state.get("all_idle") else 0,
+              "multi:ended-only-by-the-periodic-backstop": 1 if res.info.get("continued-to-backstop") else 0,
               "multi:crash-while-idle": sum(1 for x in state["crash_idle"] if x),
               "multi:crash-mid-handling": sum(1 for x in state["crash_idle"] if not x)}
     for f in findings:
